@@ -605,7 +605,7 @@ func c29Case(c *core.Ctx, f *fpConfig, caseID string, salt uint64, held *[]heldE
 	//   RandomSessionID > 0 and the cached ticket was sent ("a session resumption occurs", doc comment of RandomSessionID)
 	//                                              -> SessionID is that many fresh bytes from Config.Rand (asserted); otherwise the configured SessionID
 	exts := append([]fpExt(nil), f.exts...)
-	resumed := false
+	resumed, ambiguous := false, false
 	for i := range exts {
 		if exts[i].kind != "ticket" {
 			continue
@@ -618,6 +618,10 @@ func c29Case(c *core.Ctx, f *fpConfig, caseID string, salt uint64, held *[]heldE
 					exts[i].ticket = f.cachedTicket
 					resumed = true
 					c.Count(combo+":cached-ticket-sent", 1)
+				} else if w.Type == tlswire.ExtSessionTicket && bytes.Equal(w.Data, f.cachedTicket) {
+					// the cached ticket happens to equal the configured one: the wire cannot tell whether the cache was used
+					ambiguous = true
+					c.Count(combo+":cached-ticket-equals-configured", 1)
 				}
 			}
 		}
@@ -627,6 +631,12 @@ func c29Case(c *core.Ctx, f *fpConfig, caseID string, salt uint64, held *[]heldE
 		if len(ch.SessionID) != f.randomSessionID || !bytes.Contains(rnd.handedOut(), ch.SessionID) {
 			fail("session-id:random-session-id-on-resumption", fmt.Sprintf("RandomSessionID=%d and the cached ticket was sent, wire session id %x is not %d bytes from Config.Rand", f.randomSessionID, ch.SessionID, f.randomSessionID))
 		}
+		for i := 39; i < 39+len(ch.SessionID) && i < len(masked); i++ {
+			masked[i] = 0
+		}
+	} else if ambiguous && f.randomSessionID > 0 && len(ch.SessionID) == f.randomSessionID && bytes.Contains(rnd.handedOut(), ch.SessionID) {
+		// resumption from the cache with a ticket equal to the configured one: the random session id is the documented behaviour
+		c.Count("random_session_id_on_ambiguous_resumption", 1)
 		for i := 39; i < 39+len(ch.SessionID) && i < len(masked); i++ {
 			masked[i] = 0
 		}
